@@ -23,6 +23,7 @@ import (
 	"verifharness/ctfeenv"
 	"verifharness/pki"
 	"verifharness/ref"
+	"verifharness/vh"
 )
 
 // chainStore is the side store of the indirect mode.
@@ -65,7 +66,7 @@ func frontEndWorld() (*frontEnd, error) {
 	w.i1 = w.root.Issue(pki.Opts{CN: "c04 front-end ca 1", IsCA: true})
 	w.i2 = w.i1.Issue(pki.Opts{CN: "c04 front-end ca 2", IsCA: true})
 	for _, mode := range []string{"direct", "indirect"} {
-		dir, err := os.MkdirTemp("", "c04fe")
+		dir, err := os.MkdirTemp(vh.OutDir(), "c04fe") // inside the run's scratch directory (removed by the driver)
 		if err != nil {
 			return nil, err
 		}
